@@ -131,6 +131,11 @@ def path_condition(fn, node, inline=True, early=False):
                         fs.append(("not", formula(st["cond"], sal)))
                     elif st.get("else") is not None and _always_leaves(st.get("else")) and not _always_leaves(st.get("then")):
                         fs.append(formula(st["cond"], sal))
+                    else:
+                        # a leave nested deeper: `if (a) { ...; if (b) continue; }` lets the statement be reached only under !(a && b)
+                        lc = _leave_condition(st, sal)
+                        if lc != ("const", False):
+                            fs.append(("not", lc))
         if k == "IfStmt":
             if _contains(a.get("then"), child):
                 fs.append(formula(a["cond"], sal))
@@ -153,6 +158,37 @@ def path_condition(fn, node, inline=True, early=False):
                 fs.append(("not", formula(a["ch"][0], sal)))
         child = a
     return conj(fs)
+
+
+def _leave_condition(st, sal):
+    """Condition (over the statement's own branch conditions) under which control leaves through continue / break / return / throw
+    somewhere inside st; assignments in between are ignored (atoms are opaque)."""
+    if st is None:
+        return ("const", False)
+    k = st.get("k")
+    if k in ("ContinueStmt", "BreakStmt", "ReturnStmt", "CXXThrowExpr"):
+        return ("const", True)
+    if k == "CompoundStmt":
+        out = ("const", False)
+        for c in st.get("ch", []):
+            lc = _leave_condition(c, sal)
+            if lc == ("const", True):
+                return ("const", True) if out == ("const", False) else ("or", out, lc)
+            if lc != ("const", False):
+                out = lc if out == ("const", False) else ("or", out, lc)
+        return out
+    if k == "IfStmt":
+        c = formula(st["cond"], sal)
+        a, b = _leave_condition(st.get("then"), sal), _leave_condition(st.get("else"), sal)
+        parts = []
+        if a != ("const", False):
+            parts.append(c if a == ("const", True) else ("and", c, a))
+        if b != ("const", False):
+            parts.append(("not", c) if b == ("const", True) else ("and", ("not", c), b))
+        if not parts:
+            return ("const", False)
+        return parts[0] if len(parts) == 1 else ("or", parts[0], parts[1])
+    return ("const", False)          # loops / switches: a leave inside them ends the inner construct, or is not modelled
 
 
 def show(f):
